@@ -960,7 +960,7 @@ def install(ex):
         else:
             yield fresh_str(ex, "fmt")
 
-    @model(r"^(alloc|std)::fmt::format$|^format$|^std::fmt::Arguments::<'_>::new.*$|^core::fmt::rt::.*$|^Arguments::<'_>::.*$|^std::fmt::Arguments::.*$|^core::fmt::Arguments::.*$|^Argument::<'_>::new_\w+$|^core::fmt::rt::Argument::.*$|^format_inner$", "formatting machinery: opaque string")
+    @model(r"^(alloc|std)::fmt::format$|^format$|^std::fmt::Arguments::<'_>::new.*$|^core::fmt::rt::.*$|^Arguments::<'_>::.*$|^std::fmt::Arguments::.*$|^core::fmt::Arguments::.*$|^Argument::<'_>::new_\w+$|^Argument::new_\w+$|^Arguments::\w+$|^core::fmt::rt::Argument::.*$|^format_inner$", "formatting machinery: opaque string")
     def fmt_any(ex, callee, args, rt):
         hook = getattr(ex, "format_hook", None)
         if hook:
@@ -977,7 +977,7 @@ def install(ex):
     def it_join(ex, callee, args, rt):
         yield fresh_str(ex, "join")
 
-    @model(r"^<(std::string::)?String as PartialEq(<.*>)?>::(eq|ne)$|^<str as PartialEq(<.*>)?>::(eq|ne)$|^<&str as PartialEq(<.*>)?>::(eq|ne)$", "string equality")
+    @model(r"^<(&(mut )?)*(std::string::)?(String|str) as PartialEq(<.*>)?>::(eq|ne)$", "string equality (through any number of references)")
     def string_eq(ex, callee, args, rt):
         e = str_eq(ex, args[0], args[1])
         yield e if re.search(r"::eq$", callee) else z3.Not(e)
